@@ -69,9 +69,28 @@ def run(rep):
                                    'order': [(0, False, True), (1, True, False)], 'limit': lim, 'tag': 'alias', 'nontrivial': True})
                         st.append({'sql': 'SELECT x, y, x + y AS s FROM t ORDER BY x + y DESC NULLS LAST, y' + tail, 'ref': 'SELECT x, y, x + y FROM t',
                                    'order': [(2, True, False), (1, False, False)], 'limit': lim, 'tag': 'expression', 'nontrivial': True})
+                if xt == 'int64' and lname in ('1batch', '3batches'):
+                    # LIMIT/OFFSET below other operators: the slice is taken BEFORE the outer filter, join, aggregate or second limit sees the rows
+                    # (inner ORDER BY total up to identical rows, NULL placement explicit so that SQLite and the engine mean the same slice)
+                    inner = ['SELECT x, y FROM t ORDER BY x NULLS LAST, y LIMIT 2', 'SELECT x, y FROM t ORDER BY x DESC NULLS FIRST, y DESC LIMIT 2 OFFSET 1',
+                             'SELECT x, y FROM t ORDER BY y DESC, x NULLS FIRST LIMIT 1', 'SELECT DISTINCT x, y FROM t ORDER BY x NULLS LAST, y LIMIT 2']
+                    for q in inner:
+                        for pred in ('y = 2', 'y = 1', 'x > 1', 'x IS NULL', 'x IS NOT NULL', 'x = 1 OR y = 2', 'x + y > 2'):
+                            st.append({'sql': 'SELECT x, y FROM (%s) q WHERE %s' % (q, pred), 'tag': 'filter-above-limit', 'nontrivial': True})
+                        st.append({'sql': 'SELECT COUNT(*), MIN(x), SUM(y) FROM (%s) q WHERE y = 2' % q, 'tag': 'aggregate-above-limit'})
+                        st.append({'sql': 'SELECT x, COUNT(*) FROM (%s) q GROUP BY x HAVING COUNT(*) > 1' % q, 'tag': 'having-above-limit'})
+                        st.append({'sql': 'SELECT q.x, q.y, u.y FROM (%s) q JOIN t u ON q.x = u.x WHERE q.y = 1' % q, 'tag': 'join-above-limit'})
+                        st.append({'sql': 'SELECT q.x, q.y, u.y FROM t u JOIN (%s) q ON q.x = u.x AND q.y = 2' % q, 'tag': 'join-condition-above-limit'})
+                        st.append({'sql': 'SELECT x, y FROM t WHERE x IN (SELECT x FROM (%s) q WHERE y = 2)' % q, 'tag': 'in-subquery-above-limit'})
+                        st.append({'sql': 'WITH q AS (%s) SELECT x, y FROM q WHERE y = 2' % q, 'tag': 'cte-filter-above-limit', 'nontrivial': True})
+                        st.append({'sql': 'SELECT x, y FROM (%s) q WHERE y = 2 ORDER BY x DESC NULLS LAST LIMIT 1' % q, 'ref': 'SELECT x, y FROM (%s) q WHERE y = 2' % q,
+                                   'order': [(0, True, False)], 'limit': 1, 'tag': 'limit-above-filter-above-limit', 'nontrivial': True})
+                        st.append({'sql': 'SELECT x, y FROM (SELECT x, y FROM (%s) q WHERE y = 2) r WHERE x IS NOT NULL' % q, 'tag': 'two-filters-above-limit'})
+                    st.append({'sql': 'SELECT x, y FROM (SELECT x, y FROM t ORDER BY x NULLS LAST, y OFFSET 1) q WHERE y = 1',
+                               'ref': 'SELECT x, y FROM (SELECT x, y FROM t ORDER BY x NULLS LAST, y LIMIT -1 OFFSET 1) q WHERE y = 1', 'tag': 'filter-above-offset'})
                 units.append({'db': db, 'stmts': st})
     rep.rule = ('all multisets of 1..%d rows over (x,y), x in %s x {NULL + 2 values}, y in {1,2} (ties and NULLs); ORDER BY x [, y] x ASC/DESC x {default, NULLS FIRST, NULLS LAST}; '
-                'LIMIT in %s x OFFSET in %s; layouts: one batch, three batches, 1-byte memory limit (spilled sort); plus ordinal / alias / expression keys; '
+                'LIMIT in %s x OFFSET in %s; layouts: one batch, three batches, 1-byte memory limit (spilled sort); plus ordinal / alias / expression keys; plus 4 LIMIT/OFFSET derived tables (and a CTE) under 7 outer filters, an aggregate, HAVING, joins, IN and a second LIMIT; '
                 'oracle: output sorted under the stated keys (default NULLS LAST), LIMIT/OFFSET slice equal to the reference slice up to ties' % (maxrows, types, limits, offsets))
     sqldiff.run(rep, units)
 
